@@ -661,7 +661,7 @@ impl<'a> TextFormatter<'a> {
       result.push_str(&self.err_context(ctx));
       result.push_str("\n\n");
     }
-    let d = errors.0.len() - n;
+    let d = errors.1.len() - n;
     if d != 0 {
       result.push_str(&Self::err_ending(d));
     }
